@@ -197,6 +197,14 @@ def run(ctx):
             "send stage does not skip requests whose Deferred already fired (cancelled)", where(sreq, app[0].stmt),
             "cancelled-before-dispatch messages are transmitted")
 
+    for n in scf.nodes:
+        for c in n.calls():
+            if call_name(c) in ("errback", "callback") and (call_recv(c) or "").endswith(".deferred"):
+                r.check(((call_recv(c) + ".called"), False) in fs[n.id], "%s#late-cancel-only-detaches(%s)" % (sreq.qname, call_name(c)),
+                        "the send stage fires a caller's Deferred without first skipping requests cancelled during the partition lookup",
+                        where(sreq, c), "send cancelled while the batch waits for metadata, its lookup then fails: AlreadyCalledError "
+                        "aborts the stage; the other sends of the batch are never transmitted and never fire")
+
     # ---- R4 stop transmits nothing further
     r = ctx.rule("R4", "after stop() no path from the cancelled chains reaches the produce sender unguarded", 2, "C")
     scfg = ctx.cfg(stop)
